@@ -122,7 +122,8 @@ TStep ==
                 /\ MinerChecks(e.st.miners[i], [dep0 |-> [m \in MinerNames(e.st) |-> MinerOf(e.st, m).locked]], [ev |-> e.ev, ok |-> TRUE])
                 /\ Chk("C14", "DepositVestsOnSchedule", DepositVestsOnSchedule(e.st.miners[i]), "-", [ev |-> e.ev])
           /\ G' = [dep0 |-> [m \in MinerNames(e.st) |-> MinerOf(e.st, m).locked],
-                   fresh |-> [m \in MinerNames(e.st) |-> FALSE], lost |-> {}]
+                   fresh |-> [m \in MinerNames(e.st) |-> FALSE], lost |-> {},
+                   et |-> [m \in MinerNames(e.st) |-> [at |-> e.st.epoch, s |-> {}]]]
      ELSE /\ Wd' = e.st
           \* fresh[m]: the recorded deadline has been refreshed by a proving-deadline callback since the
           \* miner's cron became active (it goes stale while the cron is inactive: finding F2)
@@ -131,7 +132,13 @@ TStep ==
                       M2.cronActive /\ (G.fresh[m] \/ M2.pps # M1.pps)],
                            \* miners whose claim the power actor deleted after a failed callback (consequence of F1,
                            \* reported once by CronNeverFails): their schedule/power formulas are moot afterwards
-                           !.lost = @ \cup (IF e.ev = "Tick" THEN UNION {{e.fails[i].f[j].to : j \in {k \in Idx(e.fails[i].f) : e.fails[i].f[k].method = 12}} : i \in Idx(e.fails)} ELSE {})]
+                           !.lost = @ \cup (IF e.ev = "Tick" THEN UNION {{e.fails[i].f[j].to : j \in {k \in Idx(e.fails[i].f) : e.fails[i].f[k].method = 12}} : i \in Idx(e.fails)} ELSE {}),
+                           \* et[m] = a set of sectors awaiting early-termination processing and the epoch since which ALL of
+                           \* them have been waiting (re-based whenever one of them is processed, see EarlyTermsProgress)
+                           !.et = [m \in DOMAIN G.et |->
+                                     LET now == EtqSectors(MinerOf(e.st, m)) IN
+                                     IF G.et[m].s = {} \/ ~(G.et[m].s \subseteq now) \/ e.st.epoch - G.et[m].at >= 2 * W_
+                                     THEN [at |-> e.st.epoch, s |-> now] ELSE G.et[m]]]
           \* structural formulas are re-evaluated only for miners whose projected state changed
           /\ \A i \in Idx(e.st.miners) : (i <= Len(Wd.miners) /\ Wd.miners[i] = e.st.miners[i]) \/ MinerChecks(e.st.miners[i], G, e)
           /\ Chk("C02", "PowerIsActive", PowerIsActiveExcept(e.st, G'.lost), "-", e)
@@ -153,6 +160,12 @@ TStep ==
           /\ Chk("C05", "QueueNotStale", e.ev # "Tick" \/ QueueNotStale(e.st), "-", e)
           /\ Chk("C05", "NoOverdueExpiry", e.ev # "Tick" \/ NoOverdueExpiryExcept(e.st, G'.lost), "-", e)
           /\ Chk("C05", "EarlyTermsScheduled", EarlyTermsScheduled(e.st), "-", e)
+          \* "early terminations are all eventually processed", bounded: of a set of sectors awaiting processing at least
+          \* one has been processed two challenge windows later (while the cron runs and the miner keeps its claim)
+          /\ Chk("C05", "EarlyTermsProgress",
+                 \A m \in DOMAIN G.et : (G.et[m].s # {} /\ e.st.epoch - G.et[m].at >= 2 * W_ /\ m \notin G'.lost /\ (e.ev # "Tick" \/ e.cronOK))
+                                            => ~(G.et[m].s \subseteq EtqSectors(MinerOf(e.st, m))), "-", e)
+          /\ Chk("C15", "CronTerminationFee", CronTerminationFee(Wd, e, G'.lost), "-", e)
           /\ Chk("C05", "CronNeverFails", e.ev # "Tick" \/ e.cronOK \/ OnlyInjected(e), IF e.ev = "Tick" THEN CronFailTag(Wd, G, e) ELSE "-", e)
           /\ Chk("C05", "NoBalanceInvariantBroken", e.ev = "Tick" \/ e.code # 1000, "-", e)
           \* "nothing panics" is stated for the tick and its callbacks; a panic in a user message (it aborts the message
@@ -181,7 +194,7 @@ TStep ==
           /\ Chk("C01", "NoNegativeBalance", NoNegativeBalance(e.st.bals), "-", e)
           /\ Chk("C01", "RewardNeverFails", e.ev # "Reward" \/ e.ok, "-", e)
 
-TInit == Wd = [epoch |-> 0] /\ G = [dep0 |-> <<>>, fresh |-> <<>>, lost |-> {}] /\ l = 1
+TInit == Wd = [epoch |-> 0] /\ G = [dep0 |-> <<>>, fresh |-> <<>>, lost |-> {}, et |-> <<>>] /\ l = 1
 TSpec == TInit /\ [][TStep]_<<Wd, G, l>>
 Accepted == TLCGet("stats").diameter = Len(Rec) + 1
 =============================================================================
